@@ -20,6 +20,9 @@
      - floor / ceiling arguments have SI scale 1 (these functions do not commute with rescaling); every other
        function is unary (the code rejects Max/Min/Mod anyway).  Since the scaled-argument repair traverse
        itself demands scale 1 of the arguments of exp, log, trig ...: no guard is needed for them,
+     - (operands of sums / piecewise / relations are compared by dimension part and scale: since the radian
+       repair a dimension-less base unit such as radian is ignored; a Pow exponent must have no dimension and
+       scale 1, whatever the name of its unit)
      - every piecewise condition is well-united: relations compare equivalent units (traverse never visits
        conditions: finding piecewise-conditions-unchecked).
    All constructors are covered (numbers, constants, quantities, variables, Add, Mul, Pow, functions, Abs,
@@ -59,7 +62,7 @@ Theorem C04_error_kinds :
   (forall G q, infer G ETrue <> UOk q /\ infer G EFalse <> UOk q) /\
   (forall G l rs r0, infers G l = UOk rs -> hd_error rs = Some r0 ->
      forallb (fun r => sem_equiv G (fst r0) (fst r)) rs = false -> infer G (EAdd l) = UErr EInvalidUnits) /\
-  (forall G b x rb rx, infer G b = UOk rb -> infer G x = UOk rx -> syn_dimless (fst rx) = false ->
+  (forall G b x rb rx, infer G b = UOk rb -> infer G x = UOk rx -> dim_dimless G (fst rx) = false ->
      infer G (EPow b x) = UErr EMustBeDimensionless).
 Proof. exact infer_error_kinds. Qed.
 Print Assumptions C04_error_kinds.
